@@ -38,6 +38,26 @@ def legS (a p : Int) : Int :=
 
 def isSmallPrime (n : Nat) : Bool := n ≥ 2 && (List.range (Nat.sqrt n + 1)).all fun d => d < 2 || n % d != 0
 
+/-- strong-probable-prime test to the first 13 prime bases (deterministic below 3.3·10^24; a necessary condition above): used to decide
+whether a modulus ≥ 2^32 presented to bn_smb_leg is inside the contract (odd prime) -/
+def isPrimeMR (n : Nat) : Bool :=
+  let bases := [2, 3, 5, 7, 11, 13, 17, 19, 23, 29, 31, 37, 41]
+  if n < 2 then false
+  else if bases.contains n then true
+  else if bases.any (fun p => n % p = 0) then false
+  else
+    let rec split (d s : Nat) (fuel : Nat) : Nat × Nat :=
+      match fuel with
+      | 0 => (d, s)
+      | f + 1 => if d % 2 = 0 then split (d / 2) (s + 1) f else (d, s)
+    let (d, s) := split (n - 1) 0 (Nat.log2 n + 1)
+    bases.all fun a =>
+      let x := (powModI a d n).toNat
+      if x = 1 ∨ x = n - 1 then true
+      else (List.range (s - 1)).foldl (fun (st : Nat × Bool) _ =>
+        let y := st.1 * st.1 % n
+        (y, st.2 || y = n - 1)) (x, false) |>.2
+
 def expTags (l wd : Nat) (e : Nat) : List String :=
   (if l < wd then ["e-shorter-than-window"] else []) ++
   (if e + 1 == 2 ^ l ∧ l > 1 then ["e-all-ones"] else []) ++
@@ -95,7 +115,7 @@ def handle (w cap digs : Nat) (op : String) (args : List String) (got : String) 
       | none => "err"
     -- specification: the Legendre symbol for an odd prime b (the generator passes primes; small ones are re-checked here);
     -- anything else is outside the contract: the model alone judges
-    let prime := b > 2 ∧ (b ≥ 2 ^ 32 ∨ isSmallPrime b.toNat)
+    let prime := b > 2 ∧ (if b ≥ 2 ^ 32 then isPrimeMR b.toNat else isSmallPrime b.toNat)
     let spec : List String := if prime then [toString (legS a b)] else [outS pred]
     let tags := ["smb-leg"] ++
       (if b < 0 then ["leg-b<0-err"] else if a = b then ["leg-a=b"] else if ¬ prime then ["leg-b-not-odd-prime"] else
@@ -133,11 +153,17 @@ def handle (w cap digs : Nat) (op : String) (args : List String) (got : String) 
     let m ← pI w ms
     let tooLong := long as_ || long bs || long ds || long es || long ms
     let pred := NtMxp.mxpSim w a b d e m
-    -- specification: a^b·d^e mod m for exponents ≥ 0; negative exponents are outside the contract (the code ignores the sign)
+    -- specification: a^b·d^e mod m (negative exponents through inverses, or a reported error)
     let math := fmt (powModI a b.natAbs m * powModI d e.natAbs m % m)
     let spec : List String :=
       if m = 1 then ["0:u1"]
-      else if m ≤ 0 ∨ b < 0 ∨ e < 0 then [out pred]
+      else if m ≤ 0 then [out pred]
+      else if b < 0 ∨ e < 0 then
+        -- a negative exponent means the inverse (as bn_mxp does); refusing it with an error is admissible, silently returning
+        -- a^|b|·d^|e| is not (finding C09-ext-mxp-1)
+        (match mxpS a b m, mxpS d e m with
+         | some x, some y => [fmt (x * y % m), "err"]
+         | _, _ => ["err"])
       else if m % 2 = 0 then [math, "err"]
       else [math]
     let lb := Rec.bitLen b.natAbs
@@ -150,6 +176,37 @@ def handle (w cap digs : Nat) (op : String) (args : List String) (got : String) 
         (if a % m = 0 ∨ d % m = 0 then ["sim-base=0modm"] else []) ++
         (if a < 0 ∨ d < 0 then ["sim-base<0"] else []) ++
         (if (List.range (max lb le)).any (fun i => NtMxp.bit b.natAbs i && NtMxp.bit e.natAbs i) then ["sim-both-bits"] else []))
+    some { model := if tooLong && got == "err" then "err" else out pred,
+           spec := if tooLong then spec ++ ["err"] else spec, tags := tags }
+  | "nt_mxp_few", c0s :: ms :: rest => do
+    let c0 ← pI w c0s
+    let m ← pI w ms
+    let vals ← rest.mapM (pI w)
+    let rec pairs : List Int → List (Int × Int)
+      | a :: b :: t => (a, b) :: pairs t
+      | _ => []
+    let ps := pairs vals
+    let tooLong := (ms :: rest).any long
+    let pred := NtMxp.mxpSimFew w c0 ps m
+    let n := ps.length
+    let anyNeg := ps.any fun p => p.2 < 0
+    let math := fmt ((ps.foldl (fun acc p => acc * powModI p.1 p.2.natAbs m % m) (1 % m)) % m)
+    -- specification: Π a_i^b_i mod m; n = 0 leaves c untouched, n > 8 is refused; negative exponents: the mathematical value is not
+    -- computed here (known finding C09-ext-mxp-1 covers bn_mxp_sim); they are judged by the model alone
+    let spec : List String :=
+      if m = 1 then ["0:u1"]
+      else if n = 0 then [fmt c0]
+      else if n > 8 then ["err"]
+      else if m ≤ 0 ∨ anyNeg then [out pred]
+      else if m % 2 = 0 then [math, "err"]
+      else [math]
+    let tags := ["mxp-few", "few-n=" ++ toString n] ++
+      (if m = 1 then ["few-m=1"] else if n = 0 then ["few-n=0-untouched"] else if n > 8 then ["few-n>8-err"]
+       else if m ≤ 0 then ["few-m<=0-err"] else if m % 2 = 0 then ["few-even-m-err"] else
+        (if ps.any (fun p => p.2 = 0) then ["few-zero-exp"] else []) ++
+        (if ps.all (fun p => p.2 = 0) then ["few-all-zero-exp"] else []) ++
+        (if (ps.map fun p => Rec.bitLen p.2.natAbs).eraseDups.length > 1 then ["few-unequal-lengths"] else []) ++
+        (if anyNeg then ["few-neg-exp-sign-ignored"] else []))
     some { model := if tooLong && got == "err" then "err" else out pred,
            spec := if tooLong then spec ++ ["err"] else spec, tags := tags }
   | _, _ => none
